@@ -23,6 +23,9 @@ func genSimpleTable(r *Rng, router int) (TableSpec, []genRoute) {
 		if r.Pct(8) {
 			root = "/{r" + itoa(w) + "}"
 		}
+		if root == "/" && r.Pct(30) {
+			root = "" // the WebService never calls Path
+		}
 		rootToks := []tplTok{}
 		for _, s := range strings.Split(strings.Trim(root, "/"), "/") {
 			if s == "" {
